@@ -4,9 +4,12 @@ patch=$1; tier=$2; shift 2
 [ -d "$patch" ] && patch=$patch/patch.diff
 patch=$(readlink -f "$patch")
 git -C /repo diff --quiet || { echo "repo dirty"; exit 3; }
+# evidence files are rewritten by every check run: keep the clean-tree ones and put them back afterwards
+keep=$(mktemp -d /tmp/evidence-keep.XXXXXX); cp -a /verif/evidence/. $keep/
 git -C /repo apply --3way "$patch" 2>/tmp/apply.err || git -C /repo apply "$patch" || { echo "PATCH DOES NOT APPLY"; cat /tmp/apply.err; git -C /repo reset -q --hard HEAD; exit 4; }
 for id in "$@"; do
   cd /verif && VERIF_SEED=${VERIF_SEED:-1} ./verif.sh check $id $tier > /tmp/seeded-eval-$id.out 2>&1; rc=$?
   echo "== $id exit=$rc"; grep -v '^KNOWN' /tmp/seeded-eval-$id.out | grep -m3 -E 'shard|INCONCLUSIVE|BUILD|regression' | cut -c1-420
 done
 git -C /repo reset -q --hard HEAD; git -C /repo status --short | head -3
+cp -a $keep/. /verif/evidence/; rm -rf $keep
